@@ -343,12 +343,12 @@ func TestC12Takeover(t *testing.T) {
 		})
 }
 
-
 // TestC12Chain3: three nodes; the third connection is accepted by a node that has learned of both
 // earlier sessions but has not yet received the removal of the first one.
 func TestC12Chain3(t *testing.T) {
 	type cp struct {
 		HoldRemoval bool `json:"removal_of_first_record_withheld_from_node_3"`
+		LateBefore  bool `json:"withheld_removal_delivered_just_before_the_third_connection"`
 		Third       int  `json:"third_connection_on_node"`
 		OldPings    bool `json:"first_session_pings_before_third_connection"`
 	}
@@ -356,7 +356,10 @@ func TestC12Chain3(t *testing.T) {
 	for _, h := range []bool{true, false} {
 		for _, n := range []int{1, 2, 3} {
 			for _, op := range []bool{false, true} {
-				paths = append(paths, cp{h, n, op})
+				paths = append(paths, cp{h, false, n, op})
+				if h {
+					paths = append(paths, cp{h, true, n, op}) // the creation of s2 is merged first, the removal of s1 afterwards
+				}
 			}
 		}
 	}
@@ -402,6 +405,13 @@ func TestC12Chain3(t *testing.T) {
 				w.Step()
 				if p.OldPings {
 					c1.Ping()
+					w.Step()
+				}
+				if p.LateBefore {
+					for k := range w.Pending {
+						w.Deliver(k, 3)
+					}
+					w.Pending = nil
 					w.Step()
 				}
 				c3 := w.NewClient("c3", p.Third, AckAll)
